@@ -1186,6 +1186,29 @@ func runDiagSource(p *core.Program, r *core.Report, fns []*ssa.Function) {
 					})
 				}
 			}
+			// ... and the parameter of a function of the package that is handed
+			// one of them (publishDiagnostics(conn, uri, seq, diags))
+			for i := 0; i < len(aliases) && len(aliases) < 16; i++ {
+				al := aliases[i]
+				if al.Referrers() == nil {
+					continue
+				}
+				for _, ref := range *al.Referrers() {
+					c, ok := ref.(ssa.CallInstruction)
+					if !ok {
+						continue
+					}
+					callee := c.Common().StaticCallee()
+					if callee == nil || callee.Blocks == nil || core.PkgPathOf(callee) != pkgLSP {
+						continue
+					}
+					for k, a := range c.Common().Args {
+						if a == al && k < len(callee.Params) {
+							aliases = append(aliases, callee.Params[k])
+						}
+					}
+				}
+			}
 			var pub *ssa.Alloc
 			for _, al := range aliases {
 				if al.Referrers() == nil {
